@@ -313,3 +313,374 @@ Example source_ex :
                (mkstream (Hdr false (Some (1, None, 7))) 10 [[0; 1; 2]; []; [3]; [4; 5; 6]]))
   = Some [Blk [0] false (Some (An 10 2 None 7)); Blk [2] false (Some (An 11 2 None 7)); Blk [4] false (Some (An 12 2 None 7))].
 Proof. vm_compute. reflexivity. Qed.
+(* ================= simulation of runs through a state relation ================= *)
+From PV Require Import Stages.ProofsRmsX.
+Definition sim_res {S T O} (R : T -> S -> Prop) (g : option (T * list O)) (m : option (S * list O)) : Prop :=
+  match g, m with
+  | Some (t, o), Some (s, o') => o = o' /\ R t s
+  | None, None => True
+  | _, _ => False
+  end.
+
+Lemma run_sim {S T Ch O} (R : T -> S -> Prop) (g : T -> Ch -> option (T * list O)) (m : S -> Ch -> option (S * list O)) :
+  (forall t s c, R t s -> sim_res R (g t c) (m s c)) ->
+  forall cs t s, R t s -> sim_res R (run g t cs) (run m s cs).
+Proof.
+  intros H cs. induction cs as [|c cs IH]; intros t s HR; cbn [run]; [split; [reflexivity|exact HR]|].
+  specialize (H t s c HR). unfold sim_res in H.
+  destruct (g t c) as [[t1 o1]|], (m s c) as [[s1 o1']|]; try contradiction; [|exact I].
+  destruct H as [-> HR1]. specialize (IH t1 s1 HR1). unfold sim_res in IH |- *.
+  destruct (run g t1 cs) as [[t2 o2]|], (run m s1 cs) as [[s2 o2']|]; try contradiction; [|exact I].
+  destruct IH as [-> HR2]. split; [reflexivity|exact HR2].
+Qed.
+
+Lemma sim_values {S T O} (R : T -> S -> Prop) (g : option (T * list (blk O))) m want :
+  sim_res R g m -> emits_values m want -> emits_values g want.
+Proof.
+  intros H (st & outs & -> & Hv). unfold sim_res in H. destruct g as [[t o]|]; [|contradiction].
+  destruct H as [-> _]. exists t, outs. split; [reflexivity|exact Hv].
+Qed.
+Lemma sim_contiguous {S T O} (R : T -> S -> Prop) (g : option (T * list (blk O))) m h s :
+  sim_res R g m -> emits_contiguous m h s -> emits_contiguous g h s.
+Proof.
+  intros H (st & outs & -> & Hv). unfold sim_res in H. destruct g as [[t o]|]; [|contradiction].
+  destruct H as [-> _]. exists t, outs. split; [reflexivity|exact Hv].
+Qed.
+
+(* ================= rms ================= *)
+Section Rms.
+Context {A O : Type}.
+
+(* rms_step and rms_step_x of Stages/Model.v differ in the s0 of the emitted block only: s0 / n resp. s0 (input samples) *)
+Definition rms_step_g (agg : list A -> O) (s0div : Z -> Z) (n : Z) (s : rms_st A) (c : blk A)
+  : option (rms_st A * list (blk O)) :=
+  let data := r_data s ++ [c] in
+  let samples := r_n s + zlen (dat c) in
+  if samples >=? n then
+    match concat_list data with
+    | None => None
+    | Some m =>
+      let nb := zlen (dat m) / n in
+      let ns := nb * n in
+      let d := getitem None (Some ns) None m in
+      let vals := map agg (chop (Z.to_nat nb) (Z.to_nat n) (dat d)) in
+      let result :=
+        Blk vals (two m)
+            (option_map (fun a => An (s0div (a_s0 a)) (a_fsd a * n) (if two m then a_ch a else a_ch a) (a_md a)) (an d)) in
+      let r := getitem (Some ns) None None m in
+      Some (RmsSt [r] (zlen (dat r)), [result])
+    end
+  else Some (RmsSt data samples, []).
+
+Lemma rms_step_is_g agg n s c : rms_step true agg n s c = rms_step_g agg (fun s0 => s0 / n) n s c.
+Proof. reflexivity. Qed.
+Lemma rms_step_x_is_g agg n s c : rms_step_x true agg n s c = rms_step_g agg (fun s0 => s0) n s c.
+Proof. reflexivity. Qed.
+
+(* the state relation.  The source keeps a counter out_s0 (None until the first annotated block is emitted) that the model
+   does not have: the model recomputes the s0 of every emitted block from the s0 of the samples it holds.  They agree
+   as long as the counter equals s0div of the s0 of the first held block - the invariant, kept by every step. *)
+Definition rms_inv (s0div : Z -> Z) (data : list (blk A)) (o : option Z) : Prop :=
+  match o with
+  | None => True
+  | Some k => match data with
+              | b0 :: _ => forall a, an b0 = Some a -> s0div (a_s0 a) = k
+              | [] => False
+              end
+  end.
+Definition rms_rel (s0div : Z -> Z) (g : option (list (blk A) * Z * option Z)) (m : rms_st A) : Prop :=
+  match g with
+  | None => m = rms_init
+  | Some (data, samples, o) => m = RmsSt data samples /\ rms_inv s0div data o
+  end.
+
+Lemma concat2_an (x y z : blk A) : concat2 x y = Some z -> an z = an x.
+Proof.
+  unfold concat2. destruct (an x) as [a|], (an y) as [b|]; try discriminate.
+  - destruct (_ && _); [|discriminate]. intros [= <-]. reflexivity.
+  - destruct (eqb _ _); [|discriminate]. intros [= <-]. reflexivity.
+Qed.
+Lemma concat_from_an : forall (l : list (blk A)) (acc m : blk A), concat_from acc l = Some m -> an m = an acc.
+Proof.
+  induction l as [|y t IH]; intros acc m; cbn [concat_from]; [intros [= <-]; reflexivity|].
+  destruct (concat2 acc y) as [z|] eqn:E; [|discriminate]. intro H. rewrite (IH _ _ H). eapply concat2_an; eauto.
+Qed.
+
+Lemma py_last_snoc {X} (l : list X) (x : X) : py_last (l ++ [x]) = Some x.
+Proof. unfold py_last. rewrite rev_app_distr. reflexivity. Qed.
+
+Lemma slice_s0_nonneg len ns s : 0 <= ns -> slice_s0 len (Some ns) s = s + ns.
+Proof. intro H. unfold slice_s0. destruct (ns >? 0) eqn:E1; [reflexivity|]. destruct (ns <? 0) eqn:E2; lia. Qed.
+
+Variable agg : list A -> O.
+Variables (s0div : Z -> Z) (s0add : Z -> Z -> Z) (n : Z).
+Hypothesis Hn : 1 <= n.
+(* the float counter advances like the s0 of the held samples: out_s0 + n_blocks = s0div (s0 + n_blocks * n) *)
+Hypothesis Hlaw : forall s k, 0 <= k -> s0div (s + k * n) = s0add (s0div s) k.
+
+Lemma rms_body_tie (data : list (blk A)) (c : blk A) (samples : Z) (o : option Z) :
+  rms_inv s0div (data ++ [c]) o ->
+  sim_res (rms_rel s0div)
+          (rms_gen_body agg s0div s0add n (data ++ [c]) (samples + zlen (dat c)) o)
+          (rms_step_g agg s0div n (RmsSt data samples) c).
+Proof.
+  intro Hinv. unfold rms_gen_body, rms_step_g, sim_res. cbn [r_data r_n].
+  destruct (samples + zlen (dat c) >=? n); [|split; [reflexivity|split; [reflexivity|exact Hinv]]].
+  destruct (concat_list (data ++ [c])) as [m|] eqn:Ec; [|exact I].
+  unfold py_floordiv. replace (n =? 0) with false by lia.
+  assert (Hnb : 0 <= zlen (dat m) / n) by (apply Z.div_pos; [unfold zlen|]; lia).
+  set (nb := zlen (dat m) / n) in *.
+  assert (Hhead : forall b0 rest, data ++ [c] = b0 :: rest -> an m = an b0).
+  { intros b0 rest E. rewrite E in Ec. cbn [concat_list] in Ec. eapply concat_from_an; eauto. }
+  unfold rms_value, set_ch, set_s0, getitem. cbn [dat two an].
+  destruct (an m) as [a|] eqn:Ea; cbn [option_map an dat two a_s0 a_fsd a_ch a_md].
+  - (* annotated *)
+    assert (Hk : match o with Some k => s0div (a_s0 a) = k | None => True end).
+    { destruct o as [k|]; [|exact I]. unfold rms_inv in Hinv.
+      destruct (data ++ [c]) as [|b0 rest] eqn:E; [contradiction|].
+      apply Hinv. symmetry. exact (Hhead b0 rest eq_refl). }
+    destruct o as [k|]; cbn [a_s0].
+    + subst k. split.
+      * destruct (two m); reflexivity.
+      * split; [reflexivity|]. unfold rms_inv. intros a' [= <-]. cbn [a_s0].
+        match goal with |- s0div ?e = _ => replace e with (a_s0 a + nb * n) end; [apply Hlaw; exact Hnb|].
+        destruct (nb * n >? 0) eqn:E1; [reflexivity|]. destruct (nb * n <? 0) eqn:E2; lia.
+    + split.
+      * destruct (two m); reflexivity.
+      * split; [reflexivity|]. unfold rms_inv. intros a' [= <-]. cbn [a_s0].
+        match goal with |- s0div ?e = _ => replace e with (a_s0 a + nb * n) end; [apply Hlaw; exact Hnb|].
+        destruct (nb * n >? 0) eqn:E1; [reflexivity|]. destruct (nb * n <? 0) eqn:E2; lia.
+  - (* plain *)
+    split; [reflexivity|]. split; [reflexivity|]. unfold rms_inv. destruct o as [k|]; [|exact I]. intros a' [=].
+Qed.
+
+Theorem rms_tie g m (c : blk A) : rms_rel s0div g m ->
+  sim_res (rms_rel s0div) (rms_gen_step agg s0div s0add n g c) (rms_step_g agg s0div n m c).
+Proof.
+  intro HR. unfold rms_gen_step. destruct g as [[[data samples] o]|]; cbn [rms_rel] in HR.
+  - destruct HR as [-> Hinv]. rewrite py_last_snoc. apply rms_body_tie.
+    unfold rms_inv in *. destruct o as [k|]; [|exact I]. destruct data as [|b0 rest]; [contradiction|exact Hinv].
+  - subst m. unfold sum_len. cbn [fold_right].
+    replace (zlen (dat c) + 0) with (0 + zlen (dat c)) by lia.
+    apply (rms_body_tie [] c 0 None). exact I.
+Qed.
+
+Lemma rms_tie_run cs : sim_res (rms_rel s0div) (run (rms_gen_step agg s0div s0add n) None cs)
+                                               (run (rms_step_g agg s0div n) rms_init cs).
+Proof. apply run_sim; [intros; now apply rms_tie|reflexivity]. Qed.
+End Rms.
+
+(* the two readings of the float s0 arithmetic of the source *)
+Lemma rms_law_div n : 1 <= n -> forall s k, 0 <= k -> (s + k * n) / n = s / n + k.
+Proof. intros Hn s k _. apply Z.div_add. lia. Qed.
+Lemma rms_law_x n : forall s k : Z, 0 <= k -> s + k * n = s + n * k.
+Proof. intros. lia. Qed.
+(* the invariant is needed: a counter that disagrees with the held samples shows up in the next emitted s0 *)
+Theorem rms_tie_refuted : exists (g : option (list (blk Z) * Z * option Z)) (m : rms_st Z) (c : blk Z),
+  (match g with Some (d, s, _) => m = RmsSt d s | None => False end) /\
+  ~ sim_res (rms_rel (fun s => s / 2)) (rms_gen_step (sagg 2) (fun s => s / 2) Z.add 2 g c) (rms_step true (sagg 2) 2 m c).
+Proof.
+  exists (Some ([Blk [0] false (Some (An 0 1 None 7))], 1, Some 5)), (RmsSt [Blk [0] false (Some (An 0 1 None 7))] 1),
+         (Blk [1] false (Some (An 1 1 None 7))).
+  split; [reflexivity|]. vm_compute. intros [H _]. discriminate H.
+Qed.
+Example rms_rel_ex : rms_rel (fun s => s / 2) (Some ([Blk [0] false (Some (An 10 1 None 7))], 1, Some 5))
+                             (RmsSt [Blk [0] false (Some (An 10 1 None 7))] 1).
+Proof. split; [reflexivity|]. intros a [= <-]. reflexivity. Qed.
+
+Section RmsSource.
+Context {A O : Type}.
+Theorem source_rms_values_any (agg : list A -> O) n h s (ds : list (list A)) : 1 <= n ->
+  emits_values (run (rms_gen_step agg (fun s0 => s0 / n) Z.add n) None (mkstream h s ds)) (rms_blocks agg n (concat ds)).
+Proof.
+  intro Hn. eapply sim_values; [apply (rms_tie_run agg _ Z.add n Hn (rms_law_div n Hn))|].
+  rewrite (run_ext _ (rms_step true agg n)) by (intros; symmetry; apply rms_step_is_g). now apply rms_values_any.
+Qed.
+Theorem source_rms_contiguous_any (agg : list A -> O) n h s (ds : list (list A)) : 1 <= n -> (n | s) ->
+  emits_contiguous (run (rms_gen_step agg (fun s0 => s0 / n) Z.add n) None (mkstream h s ds)) (h_scale n h) (s / n).
+Proof.
+  intros Hn Hd. eapply sim_contiguous; [apply (rms_tie_run agg _ Z.add n Hn (rms_law_div n Hn))|].
+  rewrite (run_ext _ (rms_step true agg n)) by (intros; symmetry; apply rms_step_is_g). now apply rms_contiguous_any.
+Qed.
+(* every first s0 (also off the block grid): s0 kept in input samples, i.e. n times the exact value of the float s0 *)
+Theorem source_rms_x_values_any (agg : list A -> O) n h s (ds : list (list A)) : 1 <= n ->
+  emits_values (run (rms_gen_step agg (fun s0 => s0) (fun t k => t + n * k) n) None (mkstream h s ds))
+               (rms_blocks agg n (concat ds)).
+Proof.
+  intro Hn. eapply sim_values; [apply (rms_tie_run agg _ (fun t k => t + n * k) n Hn (rms_law_x n))|].
+  rewrite (run_ext _ (rms_step_x true agg n)) by (intros; symmetry; apply rms_step_x_is_g). now apply rms_x_values_any.
+Qed.
+Theorem source_rms_x_contiguous_any (agg : list A -> O) n h s (ds : list (list A)) : 1 <= n ->
+  exists st outs, run (rms_gen_step agg (fun s0 => s0) (fun t k => t + n * k) n) None (mkstream h s ds) = Some (st, outs) /\
+                  contiguous_x n (h_scale n h) s outs.
+Proof.
+  intro Hn. destruct (rms_x_contiguous_any agg n h s ds Hn) as (st & outs & E & C).
+  pose proof (rms_tie_run agg _ (fun t k => t + n * k) n Hn (rms_law_x n) (mkstream h s ds)) as H.
+  rewrite (run_ext _ (rms_step_x true agg n)) in H by (intros; symmetry; apply rms_step_x_is_g).
+  rewrite E in H. unfold sim_res in H.
+  destruct (run _ None (mkstream h s ds)) as [[t o]|]; [|contradiction]. destruct H as [-> _].
+  exists t, outs. split; [reflexivity|exact C].
+Qed.
+End RmsSource.
+
+(* ================= event_rate ================= *)
+Section EventRate.
+Definition er_rep (st : er_st) : events * Z := (er_ev st, er_s0x2 st).
+Definition ev_count (b : events) : Z := zlen (evs b).
+
+(* the window loop: the source collects the windows (Events blocks), the model their event counts *)
+Lemma event_rate_tie_loop bsz stp : forall (fuel : nat) (e : events) (bl : list events),
+  match event_rate_gen_loop1 fuel bsz stp bl e, er_loop fuel bsz stp e with
+  | Some (bl', e'), Some (cs, e'') => map ev_count bl' = map ev_count bl ++ cs /\ e' = e''
+  | None, None => True
+  | _, _ => False
+  end.
+Proof.
+  induction fuel as [|f IH]; intros e bl; cbn [event_rate_gen_loop1 er_loop].
+  - destruct (e_hi e - e_lo e >? bsz); [exact I|]. rewrite app_nil_r. split; reflexivity.
+  - destruct (e_hi e - e_lo e >? bsz); [|rewrite app_nil_r; split; reflexivity].
+    destruct (get_range e (e_lo e) (e_lo e + bsz)) as [b|]; [|exact I].
+    specialize (IH (trim_left e (e_lo e + stp)) (bl ++ [b])).
+    destruct (event_rate_gen_loop1 f bsz stp (bl ++ [b]) (trim_left e (e_lo e + stp))) as [[bl' e']|],
+             (er_loop f bsz stp (trim_left e (e_lo e + stp))) as [[cs e'']|]; try contradiction; [|exact I].
+    destruct IH as [H1 H2]. split; [|exact H2].
+    rewrite H1, map_app, <- app_assoc. reflexivity.
+Qed.
+
+Lemma event_rate_tie_body bsz stp (e : events) (s0 : Z) :
+  event_rate_gen_body bsz stp e s0 =
+  match er_loop (Z.to_nat (e_hi e - e_lo e)) bsz stp e with
+  | None => None
+  | Some (cs, e') =>
+    match cs with
+    | [] => Some (Some (e', s0), [])
+    | _ => Some (Some (e', s0 + 2 * zlen cs), [Rb cs s0 stp])
+    end
+  end.
+Proof.
+  unfold event_rate_gen_body.
+  pose proof (event_rate_tie_loop bsz stp (Z.to_nat (e_hi e - e_lo e)) e []) as H.
+  destruct (event_rate_gen_loop1 _ bsz stp [] e) as [[bl' e']|], (er_loop _ bsz stp e) as [[cs e'']|];
+    try contradiction; [|reflexivity].
+  destruct H as [H1 ->]. cbn [map app] in H1. subst cs.
+  destruct bl' as [|b t]; reflexivity.
+Qed.
+
+Theorem event_rate_tie bsz stp (s : option er_st) (c : events) :
+  event_rate_gen_step bsz stp (option_map er_rep s) c = lift (option_map er_rep) (er_step true bsz stp s c).
+Proof.
+  unfold event_rate_gen_step, er_step. destruct s as [st|]; cbn [option_map er_rep].
+  - destruct (combine_events (er_ev st) c) as [e|]; [|reflexivity].
+    rewrite event_rate_tie_body.
+    destruct (er_loop _ bsz stp e) as [[cs e']|]; [|reflexivity]. destruct cs; reflexivity.
+  - rewrite event_rate_tie_body.
+    destruct (er_loop _ bsz stp c) as [[cs e']|]; [|reflexivity]. destruct cs; reflexivity.
+Qed.
+
+Lemma event_rate_tie_run bsz stp cs (s : option er_st) :
+  run (event_rate_gen_step bsz stp) (option_map er_rep s) cs = lift (option_map er_rep) (run (er_step true bsz stp) s cs).
+Proof. apply run_lift. apply event_rate_tie. Qed.
+End EventRate.
+
+From Coq Require Import Permutation.
+From PV Require Import Stages.ProofsER.
+Lemma lift_some {S T O} (f : S -> T) (r : option (S * list O)) st outs :
+  r = Some (st, outs) -> lift f r = Some (f st, outs).
+Proof. intros ->. reflexivity. Qed.
+
+(* the causal theorems (events at or after the START of the block that carries them) over the generated step *)
+Theorem source_event_rate_causal_spec bsz stp lo (cs : list events) :
+  0 <= bsz -> 1 <= stp -> cs <> [] -> causal lo cs ->
+  exists st outs, run (event_rate_gen_step bsz stp) None cs = Some (st, outs) /\
+    concat (map r_counts outs) = event_rates bsz stp (ev_all cs) lo (ev_end lo cs) /\
+    r_contiguous (2 * lo + bsz) stp outs.
+Proof.
+  intros Hb Hs Hne Hc. destruct (event_rate_causal_spec bsz stp lo cs Hb Hs Hne Hc) as (st & outs & E & H).
+  exists (option_map er_rep st), outs. split; [|exact H].
+  change (@None (events * Z)) with (option_map er_rep None). rewrite event_rate_tie_run. now apply lift_some.
+Qed.
+Theorem source_event_rate_causal_chunk_invariant bsz stp lo (cs1 cs2 : list events) :
+  0 <= bsz -> 1 <= stp -> cs1 <> [] -> cs2 <> [] -> causal lo cs1 -> causal lo cs2 ->
+  Permutation (ev_all cs1) (ev_all cs2) -> ev_end lo cs1 = ev_end lo cs2 ->
+  exists st1 o1 st2 o2,
+    run (event_rate_gen_step bsz stp) None cs1 = Some (st1, o1) /\
+    run (event_rate_gen_step bsz stp) None cs2 = Some (st2, o2) /\
+    concat (map r_counts o1) = concat (map r_counts o2).
+Proof.
+  intros Hb Hs H1 H2 C1 C2 P E.
+  destruct (event_rate_causal_chunk_invariant bsz stp lo cs1 cs2 Hb Hs H1 H2 C1 C2 P E) as (st1 & o1 & st2 & o2 & E1 & E2 & H).
+  exists (option_map er_rep st1), o1, (option_map er_rep st2), o2.
+  change (@None (events * Z)) with (option_map er_rep None). rewrite !event_rate_tie_run.
+  split; [now apply lift_some|]. split; [now apply lift_some|exact H].
+Qed.
+Theorem source_event_rate_values_any bsz stp lo (cs : list events) :
+  0 <= bsz -> 1 <= stp -> cs <> [] -> ev_stream_any lo cs ->
+  exists st outs, run (event_rate_gen_step bsz stp) None cs = Some (st, outs) /\
+    concat (map r_counts outs) = event_rates bsz stp (ev_all cs) lo (ev_end lo cs).
+Proof.
+  intros Hb Hs Hne Hc. destruct (event_rate_values_any bsz stp lo cs Hb Hs Hne Hc) as (st & outs & E & H).
+  exists (option_map er_rep st), outs. split; [|exact H].
+  change (@None (events * Z)) with (option_map er_rep None). rewrite event_rate_tie_run. now apply lift_some.
+Qed.
+Theorem source_event_rate_contiguous_any bsz stp lo (cs : list events) :
+  0 <= bsz -> 1 <= stp -> cs <> [] -> ev_stream_any lo cs ->
+  exists st outs, run (event_rate_gen_step bsz stp) None cs = Some (st, outs) /\ r_contiguous (2 * lo + bsz) stp outs.
+Proof.
+  intros Hb Hs Hne Hc. destruct (event_rate_contiguous_any bsz stp lo cs Hb Hs Hne Hc) as (st & outs & E & H).
+  exists (option_map er_rep st), outs. split; [|exact H].
+  change (@None (events * Z)) with (option_map er_rep None). rewrite event_rate_tie_run. now apply lift_some.
+Qed.
+
+(* ================= transform, mc_reference ================= *)
+Section MapStages.
+Context {A O : Type}.
+Theorem transform_tie (g : A -> O) (s : unit) (c : blk A) : transform_gen_step g s c = map_step g s c.
+Proof. reflexivity. Qed.
+Theorem mc_reference_tie (g : A -> O) (s : unit) (c : blk A) : mc_reference_gen_step g s c = map_step g s c.
+Proof. reflexivity. Qed.
+
+Theorem source_transform_values_any (g : A -> O) h s (ds : list (list A)) :
+  emits_values (run (transform_gen_step g) (transform_gen_init g) (mkstream h s ds)) (map g (concat ds)).
+Proof. rewrite (run_ext _ (map_step g)) by apply transform_tie. apply map_values_any. Qed.
+Theorem source_transform_contiguous_any (g : A -> O) h s (ds : list (list A)) :
+  emits_contiguous (run (transform_gen_step g) (transform_gen_init g) (mkstream h s ds)) h s.
+Proof. rewrite (run_ext _ (map_step g)) by apply transform_tie. apply map_contiguous_any. Qed.
+Theorem source_mc_reference_values_any (g : A -> O) h s (ds : list (list A)) :
+  emits_values (run (mc_reference_gen_step g) (mc_reference_gen_init g) (mkstream h s ds)) (map g (concat ds)).
+Proof. rewrite (run_ext _ (map_step g)) by apply mc_reference_tie. apply map_values_any. Qed.
+Theorem source_mc_reference_contiguous_any (g : A -> O) h s (ds : list (list A)) :
+  emits_contiguous (run (mc_reference_gen_step g) (mc_reference_gen_init g) (mkstream h s ds)) h s.
+Proof. rewrite (run_ext _ (map_step g)) by apply mc_reference_tie. apply map_contiguous_any. Qed.
+End MapStages.
+
+(* ================= iirfilter ================= *)
+Section IIR.
+Context {F A : Type}.
+Theorem iirfilter_tie (filt : F -> A -> F * A) (finit : A -> F) (s : option F) (c : blk A) :
+  iirfilter_gen_step filt finit s c = iir_step_e true filt finit s c.
+Proof.
+  unfold iirfilter_gen_step, iir_step_e, skip_empty, iirfilter_gen_body, iir_step, lfilter.
+  destruct s as [z|].
+  - rewrite zlen_zero_nil. destruct (dat c) as [|x t] eqn:Ed; [reflexivity|].
+    destruct (mapAccum filt z (x :: t)) as [z1 yf]. rewrite reannotate. reflexivity.
+  - rewrite zlen_zero_nil. destruct (dat c) as [|x t] eqn:Ed; [reflexivity|].
+    destruct (mapAccum filt (finit x) (x :: t)) as [z1 yf]. rewrite reannotate. reflexivity.
+Qed.
+
+Theorem source_iirfilter_values_any (filt : F -> A -> F * A) finit h s (ds : list (list A)) :
+  emits_values (run (iirfilter_gen_step filt finit) None (mkstream h s ds)) (iir_filtered filt finit (concat ds)).
+Proof. rewrite (run_ext _ (iir_step_e true filt finit)) by apply iirfilter_tie. apply iir_values_any. Qed.
+Theorem source_iirfilter_contiguous_any (filt : F -> A -> F * A) finit h s (ds : list (list A)) :
+  emits_contiguous (run (iirfilter_gen_step filt finit) None (mkstream h s ds)) h s.
+Proof. rewrite (run_ext _ (iir_step_e true filt finit)) by apply iirfilter_tie. apply iir_contiguous_any. Qed.
+End IIR.
+
+(* the rms tie against the two model functions of Stages/Model.v *)
+Theorem rms_tie_div {A O} (agg : list A -> O) n g m (c : blk A) : 1 <= n -> rms_rel (fun s => s / n) g m ->
+  sim_res (rms_rel (fun s => s / n)) (rms_gen_step agg (fun s => s / n) Z.add n g c) (rms_step true agg n m c).
+Proof. intros Hn HR. rewrite rms_step_is_g. apply rms_tie; [exact Hn|apply rms_law_div; exact Hn|exact HR]. Qed.
+Theorem rms_tie_x {A O} (agg : list A -> O) n g m (c : blk A) : 1 <= n -> rms_rel (fun s => s) g m ->
+  sim_res (rms_rel (fun s => s)) (rms_gen_step agg (fun s => s) (fun t k => t + n * k) n g c) (rms_step_x true agg n m c).
+Proof. intros Hn HR. rewrite rms_step_x_is_g. apply rms_tie; [exact Hn|apply rms_law_x|exact HR]. Qed.
+Lemma rms_rel_init {A} (s0div : Z -> Z) : @rms_rel A s0div None rms_init.
+Proof. reflexivity. Qed.
